@@ -173,6 +173,7 @@ pub fn plan(prop: &str) -> Option<Plan> {
         }
         "C08" => {
             p.name = "C08";
+            p.w_plain_root = 3;
             p.w_collect = 40;
             p.w_work = 25;
             p.w_adjust = 10;
